@@ -12,7 +12,8 @@ SHARDS = {'quick': 8, 'thorough': 16}
 RULE = ('Recordings of operations over categories {A, AB, A_B, B, BA} (prefixes of one another, underscores) are made '
         'on every cassette type (in-memory, file, S3 with and without key prefix); the REAL PlaybackStudio is run with '
         '(a) explicit id lists in a generated order (and a second run with a permutation of it) or (b) lookup-driven '
-        'selection for a generated category list; the tuner raises for a generated subset of categories; the '
+        'selection for a generated category list, with lookup properties left at their default (limit 20), without limit or '
+        'with a limit of 1-3 (explicit ids ignore them; a lookup returns min(limit, n) recordings of the category); the tuner raises for a generated subset of categories; the '
         'per-category result generators are consumed in a generated interleaving; in-process, plus a small '
         'dedicated-process arm. Per-category playback function / extractor / comparator are harness closures tagged '
         'with their category that journal every call and put (tuning category, replayed id) into the verdict message. '
@@ -117,9 +118,11 @@ def run_case(ctx, case):
             cfg = CompareExecutionConfig(compare_in_dedicated_process=True, compare_process_timeout=8) \
                 if case.get('dedicated') else None
             conv = tuple if case.get('container') == 'tuple' else list
+            lp = case.get('lookup', 'nolimit')
+            kw_lp = {} if lp == 'default' else {'lookup_properties': RecordingLookupProperties(
+                start_date=None, limit=None if lp == 'nolimit' else lp)}
             studio = PlaybackStudio(conv(categories), Tuner(), rec, recording_ids=None if ids is None else conv(ids),
-                                    lookup_properties=RecordingLookupProperties(start_date=None),
-                                    compare_execution_config=cfg)
+                                    compare_execution_config=cfg, **kw_lp)
             result = studio.play()
             keys = list(result.keys())
             gens = dict((c, iter(g)) for c, g in result.items() if not isinstance(g, Exception))
@@ -154,6 +157,8 @@ def run_case(ctx, case):
             ids = None
             want = dict((c, [rid for cat, rid, _ in made if cat == c]) for c in categories)
         keys, result, got = studio_run(ids, categories, case['order'])
+        lp_ = case.get('lookup', 'nolimit')
+        lim = None if lp_ == 'nolimit' else (20 if lp_ == 'default' else lp_)    # documented default limit: 20
         # categories
         if sorted(keys) != sorted(want):
             raise Violation('studio reported categories %r, selected recordings belong to %r' % (keys, sorted(want)),
@@ -173,6 +178,11 @@ def run_case(ctx, case):
             if case['mode'] == 'explicit':
                 if got_ids != want[c]:
                     raise Violation('category %s replayed %r, selected (in order) %r' % (c, got_ids, want[c]), 'routing')
+            elif lim is not None:
+                if len(set(got_ids)) != len(got_ids) or not set(got_ids) <= set(want[c]) or \
+                        len(got_ids) != min(lim, len(want[c])):
+                    raise Violation('lookup-driven category %s with limit %r replayed %r, its recordings are %r' % (
+                        c, lim, got_ids, want[c]), 'routing')
             elif sorted(got_ids) != sorted(want[c]):
                 raise Violation('lookup-driven category %s replayed %r, its recordings are %r (all: %r)' % (
                     c, got_ids, want[c], [(cc, r) for cc, r, _ in made]), 'routing')
@@ -190,6 +200,8 @@ def run_case(ctx, case):
         if not case.get('dedicated'):
             plays = [j for j in journal if j[0] == 'play']
             selected = [rid for c in want if c not in failing for rid in want[c]]
+            if case['mode'] != 'explicit' and lim is not None:
+                selected = [comp.recording_id for c in want if c not in failing for comp in got[c]]
             if sorted(p[2] for p in plays) != sorted(selected):
                 raise Violation('replays performed %r, selected %r' % (sorted(p[2] for p in plays), sorted(selected)),
                                 'exactly-once')
@@ -214,7 +226,7 @@ def run_case(ctx, case):
     nt = prefix_related(cats_present) or bool(failing & set(want))
     ctx.case(case, nt, classes=('mode:' + case['mode'], 'cassette:' + kind, 'failing:%d' % len(failing & set(want)),
                                 'dedicated' if case.get('dedicated') else 'in-process',
-                                'categories:%d' % len(want)))
+                                'categories:%d' % len(want), 'lookup-properties:%s' % case.get('lookup', 'nolimit')))
 
 
 @st.composite
@@ -225,7 +237,8 @@ def cases(draw):
             'mode': mode, 'failing': draw(st.lists(st.sampled_from(CATS), max_size=2, unique=True)),
             'order': draw(st.lists(st.integers(0, 5), min_size=1, max_size=6)),
             'dedicated': draw(st.sampled_from([False] * 9 + [True])),
-            'container': draw(st.sampled_from(['list', 'list', 'tuple']))}
+            'container': draw(st.sampled_from(['list', 'list', 'tuple'])),
+            'lookup': draw(st.sampled_from(['nolimit', 'nolimit', 'default', 1, 2, 3]))}
     if mode == 'explicit':
         case['pick'] = draw(st.lists(st.integers(0, 20), min_size=1, max_size=8))
         case['perm'] = draw(st.lists(st.integers(0, 9), min_size=1, max_size=8))
